@@ -10,6 +10,7 @@
 #include "pv.h"
 #include <pthread.h>
 #include <sys/mman.h>
+#include <unistd.h>
 
 #define STK_SIZE (512 * 1024)
 static uint8_t* stk;
@@ -70,8 +71,8 @@ static void run_on_owned_stack(job* j) {
 }
 
 /* ---------------------------------------------------------------- needles */
-enum { N_SECRET, N_PHRASE, N_PASSWORD, N_MASK, N_INDICES, N_NKIND };
-static const char* const NKIND[] = { "secret-bytes", "phrase-text", "password", "mask", "word-indices" };
+enum { N_SECRET, N_PHRASE, N_PASSWORD, N_MASK, N_INDICES, N_WORDPTR, N_NKIND };
+static const char* const NKIND[] = { "secret-bytes", "phrase-text", "password", "mask", "word-indices", "word-pointers" };
 typedef struct needle { uint8_t b[160]; int n; int kind; int variant, cstart, crun, cwidth; } needle;
 #define MAXNEEDLE 1024
 typedef struct nset { needle v[MAXNEEDLE]; int n; unsigned coeff[2][16]; bool have_coeff; } nset;
@@ -129,6 +130,37 @@ static void add_coeffs(nset* S, const unsigned with_coin[16], const unsigned wit
     }
 }
 
+/* pointers into the library's word tables are as good as the indices: for every word of the phrase the addresses of
+ * its string(s) inside the read-only mappings of this executable are looked up and searched for as 8-byte values */
+static struct { uint8_t* lo; uint8_t* hi; } g_img[16]; static int g_nimg = -1;
+static void image_ranges(void) {
+    g_nimg = 0;
+    char exe[512]; ssize_t k = readlink("/proc/self/exe", exe, sizeof exe - 1); if (k <= 0) return; exe[k] = 0;
+    FILE* f = fopen("/proc/self/maps", "r"); if (!f) return;
+    char line[1024];
+    while (fgets(line, sizeof line, f) && g_nimg < 16) {
+        unsigned long a, b; char perms[8], path[600] = "";
+        if (sscanf(line, "%lx-%lx %7s %*s %*s %*s %599s", &a, &b, perms, path) >= 3 && perms[0] == 'r' && perms[1] == '-' && !strcmp(path, exe)) { g_img[g_nimg].lo = (uint8_t*)a; g_img[g_nimg].hi = (uint8_t*)b; ++g_nimg; }
+    }
+    fclose(f);
+}
+static int word_addresses(const char* word, uint64_t out[4]) {
+    if (g_nimg < 0) image_ranges();
+    char pat[128]; size_t wl = strlen(word); if (wl + 2 > sizeof pat) return 0;
+    pat[0] = 0; memcpy(pat + 1, word, wl); pat[wl + 1] = 0;
+    int n = 0;
+    for (int i = 0; i < g_nimg && n < 4; ++i) {
+        uint8_t* p = g_img[i].lo;
+        while (n < 4 && (size_t)(g_img[i].hi - p) >= wl + 2 && (p = memmem(p, (size_t)(g_img[i].hi - p), pat, wl + 2)) != NULL) { out[n++] = (uint64_t)(uintptr_t)(p + 1); p += 1; }
+    }
+    return n;
+}
+static void add_wordptrs(nset* S, const pv_mlang* L, const unsigned d[16]) {
+    for (int i = 0; i < 16; ++i) {
+        uint64_t a[4]; int n = word_addresses(L->word[d[i]], a);
+        for (int k = 0; k < n && S->n < MAXNEEDLE; ++k) { needle* x = &S->v[S->n++]; memset(x, 0, sizeof *x); memcpy(x->b, &a[k], 8); x->n = 8; x->kind = N_WORDPTR; x->cstart = i; }
+    }
+}
 typedef struct hit { int kind; long offset; needle nd; } hit;
 static uint64_t g_bytes_scanned, g_needles_searched, g_static_scanned, g_tls_scanned;
 static int scan(const job* j, const nset* S, hit* hits, int cap) {
@@ -199,7 +231,7 @@ static bool build(const shape* sh, pv_rng* r, job* j, nset* S) {
         if (sh->api == A_ENCODE) {
             j->out_str = malloc(POLYSEED_STR_SIZE);
             char ph[2048]; pv_m_join_space(L, d, ph, sizeof ph);
-            add_phrase(S, ph); add_coeffs(S, d, c);
+            add_phrase(S, ph); add_coeffs(S, d, c); add_wordptrs(S, L, d);
         }
         if (sh->api == A_KEYGEN) { j->keylen = 32; j->key = malloc(32); }
         if (sh->api == A_STORE) j->buf32 = malloc(32);
@@ -255,6 +287,7 @@ static bool build(const shape* sh, pv_rng* r, job* j, nset* S) {
         char nfk[4096]; join_tokens(nfk, L, d, " ", ntok, bad);
         add_phrase(S, nfk);
         if (sh->path != P_NUM_WORDS) add_coeffs(S, d, sh->path == P_CHECKSUM ? d : c);
+        if (sh->path != P_NUM_WORDS && sh->path != P_LANG) add_wordptrs(S, L, d);
         if (sh->path == P_OK || sh->path == P_UNSUPPORTED) add_windows(S, N_SECRET, m.secret, 19, 8);
         return true; }
     }
@@ -337,7 +370,7 @@ static void one_case(const shape* sh, pv_rng* rng, bool control) {
         int nbyte = 0;
         for (int i = 0; i < S.n; ++i) {
             const needle* x = &S.v[i];
-            if (x->kind == N_INDICES || x->n < 6) continue;      /* small integers are meaningless in static data without the offset confirmation */
+            if (x->kind == N_INDICES || x->kind == N_WORDPTR || x->n < 6) continue;      /* small integers are meaningless in static data without the offset confirmation; the word tables themselves are static pointers */
             uint64_t k = 0; memcpy(&k, x->b, 6);
             unsigned h = (unsigned)((k * 0x9e3779b97f4a7c15ull) >> 54) & (HT - 1);
             nextn[i] = head[h]; head[h] = (int16_t)i; ++nbyte;
@@ -368,7 +401,7 @@ static void one_case(const shape* sh, pv_rng* rng, bool control) {
         g_tls_scanned += (uint64_t)(hi - lo);
         for (int i = 0; i < S.n; ++i) {
             const needle* x = &S.v[i];
-            if (x->kind == N_INDICES || x->n < 6) continue;
+            if (x->kind == N_INDICES || x->kind == N_WORDPTR || x->n < 6) continue;
             uint8_t* p = memmem(lo, (size_t)(hi - lo), x->b, (size_t)x->n);
             if (p) {
                 if (control) { PV_COUNT("control.tls_hits", 1); break; }
@@ -381,7 +414,31 @@ static void one_case(const shape* sh, pv_rng* rng, bool control) {
     /* (ii) dead stack */
     int nh = scan(&j, &S, hits, 64);
     bool distinct_done = false;
+    /* word pointers: three or more different words of the phrase addressed from the dead stack, confirmed with another phrase */
+    {
+        int np = 0; long off[64]; int pos[64]; bool seen[16] = { false }; int distinct = 0;
+        for (int h = 0; h < nh; ++h) if (hits[h].kind == N_WORDPTR && np < 64) { off[np] = hits[h].offset; pos[np] = hits[h].nd.cstart; if (!seen[pos[np]]) { seen[pos[np]] = true; ++distinct; } ++np; }
+        if (distinct >= 3) {
+            PV_COUNT("wordptr.candidates", 1);
+            static job* j3p; static nset* S3p; if (!j3p) { j3p = malloc(sizeof *j3p); S3p = malloc(sizeof *S3p); }
+            pv_rng r3; pv_rng_seed(&r3, pv_rand64(rng), 0x9017, 1);
+            if (build(sh, &r3, j3p, S3p)) {
+                pv_w->memzero_mode = control ? 1 : 0; run_on_owned_stack(j3p); pv_w->memzero_mode = 0;
+                int agree = 0;
+                for (int q = 0; q < np; ++q) {
+                    uint64_t v; uint8_t* at = (uint8_t*)j3p->frame_lo - off[q];
+                    if (at < stk) continue;
+                    memcpy(&v, at, 8);
+                    for (int i = 0; i < S3p->n; ++i) if (S3p->v[i].kind == N_WORDPTR && S3p->v[i].cstart == pos[q] && !memcmp(S3p->v[i].b, &v, 8)) { ++agree; break; }
+                }
+                dispose(j3p);
+                if (agree >= 3) { PV_COUNT("wordptr.confirmed", 1); report(control, sh, NKIND[N_WORDPTR], "%d slots of the dead stack point at the words of the phrase (positions incl. %d), and at the words of an independent phrase in a second run", agree, pos[0] + 1); }
+                else PV_COUNT("wordptr.dismissed", 1);
+            }
+        }
+    }
     for (int h = 0; h < nh; ++h) {
+        if (hits[h].kind == N_WORDPTR) continue;
         if (hits[h].kind != N_INDICES) {
             report(control, sh, NKIND[hits[h].kind], "%d-byte needle %s found %ld bytes below the call frame", hits[h].nd.n, pv_hex(hits[h].nd.b, (size_t)hits[h].nd.n), hits[h].offset);
             continue;
